@@ -4,6 +4,7 @@ import (
 	"fmt"
 	"go/token"
 	"go/types"
+	"sort"
 	"strings"
 
 	"golang.org/x/tools/go/ssa"
@@ -655,4 +656,38 @@ func gcsSortedRule(p *Program, r *Report, rule string) int {
 		}
 	}
 	return n
+}
+
+// gcsBuildRefusals: BuildGCSFilter refuses for P, or because the number of items does not fit the 32-bit count field
+// (len(data) compared with a constant of at least 2^32) — nothing else.
+func gcsBuildRefusals(p *Program, r *Report, rule string, fn *ssa.Function, pp *ssa.Parameter) {
+	rej := rejectingBlocks(fn)
+	n := 0
+	for _, b := range fn.Blocks {
+		iff, ok := lastInstr(b).(*ssa.If)
+		if !ok || rej[b] || mergedErrTest(b) || (!rejectingVia(rej, b, b.Succs[0], 0) && !rejectingVia(rej, b, b.Succs[1], 0)) {
+			continue
+		}
+		n++
+		var foreign []string
+		for pa := range valueParamDeps(iff.Cond) {
+			if pa != pp {
+				foreign = append(foreign, pa.Name())
+			}
+		}
+		good := len(foreign) == 0
+		if !good {
+			// the count-fits-uint32 test
+			if bo, isB := iff.Cond.(*ssa.BinOp); isB && (bo.Op == token.GEQ || bo.Op == token.GTR) {
+				if k, isK := constUint(bo.Y); isK && k >= 1<<32-1 {
+					if c, isC := stripConv(bo.X).(*ssa.Call); isC && isBuiltin(&c.Call, "len") {
+						good = true
+					}
+				}
+			}
+		}
+		sort.Strings(foreign)
+		r.Add(rule, FnName(fn), fmt.Sprintf("refusal #%d is decided by P (or by the item count not fitting 32 bits)", n), iff.Cond.Pos(), good,
+			fmt.Sprintf("condition %s; other arguments it reads: {%s}", exprString(iff.Cond), strings.Join(foreign, ", ")))
+	}
 }
